@@ -13,20 +13,20 @@ theorem parNoParL_iff : ∀ ts : List Tree, parNoParL ts = true ↔ ∀ t ∈ ts
 
 theorem pnp_node (it : Item) (p : Ref) (kids : List Tree) :
     parNoPar (.node it p kids) = true ↔
-      (it.level = parLevel → ∀ k ∈ kids, k.it.level ≠ parLevel) ∧ parNoParL kids = true := by
-  simp only [parNoPar, Bool.and_eq_true, decide_eq_true_eq, beq_iff_eq, List.all_eq_true, bne_iff_ne, ne_eq]
+      (it.level = parLevel → ∀ k ∈ kids, parLevel < k.it.level) ∧ parNoParL kids = true := by
+  simp only [parNoPar, Bool.and_eq_true, decide_eq_true_eq, beq_iff_eq, List.all_eq_true]
 
 theorem pnp_eq (t : Tree) : parNoPar t = true ↔
-    (t.it.level = parLevel → ∀ k ∈ t.kids, k.it.level ≠ parLevel) ∧ parNoParL t.kids = true := by
+    (t.it.level = parLevel → ∀ k ∈ t.kids, parLevel < k.it.level) ∧ parNoParL t.kids = true := by
   cases t; exact pnp_node _ _ _
 
 theorem pnp_setParent (r : Ref) (t : Tree) : parNoPar (t.setParent r) = parNoPar t := by
   cases t; simp [Tree.setParent, parNoPar]
 
-theorem char_ne_par' : characterLevel ≠ parLevel := by decide
+theorem char_ne_par' : parLevel < characterLevel := by decide
 
 theorem flush_pnp (cs : Bool) (o : Ref) (txt : List Tree) :
-    ∀ y ∈ flushText cs o txt, parNoPar y = true ∧ y.it.level ≠ parLevel := by
+    ∀ y ∈ flushText cs o txt, parNoPar y = true ∧ parLevel < y.it.level := by
   intro y hy
   unfold flushText at hy
   by_cases he : txt.isEmpty
@@ -47,7 +47,7 @@ theorem norm_pnp (cs : Bool) : ∀ t : Tree, parNoPar t = true → parNoPar (nor
     exact (pnp_node _ _ _).2 ⟨fun hl => this.2 (h1 hl), this.1⟩
 theorem normKids_pnp (cs : Bool) (o : Ref) : ∀ (ks txt : List Tree), parNoParL ks = true →
     parNoParL (normKids cs o ks txt) = true ∧
-    ((∀ k ∈ ks, k.it.level ≠ parLevel) → ∀ y ∈ normKids cs o ks txt, y.it.level ≠ parLevel)
+    ((∀ k ∈ ks, parLevel < k.it.level) → ∀ y ∈ normKids cs o ks txt, parLevel < y.it.level)
   | [], txt, _ => by
     simp only [normKids]
     exact ⟨(parNoParL_iff _).2 fun y hy => (flush_pnp cs o txt y hy).1, fun _ y hy => (flush_pnp cs o txt y hy).2⟩
@@ -80,12 +80,12 @@ theorem normKids_pnp (cs : Bool) (o : Ref) : ∀ (ks txt : List Tree), parNoParL
 end
 
 theorem mkPar_pnp (proto : Item) (o p : Ref) (k : Nat) (b : Bool) (kids : List Tree)
-    (h1 : ∀ x ∈ kids, x.it.level ≠ parLevel) (h2 : parNoParL kids = true) :
+    (h1 : ∀ x ∈ kids, parLevel < x.it.level) (h2 : parNoParL kids = true) :
     parNoPar (mkPar proto o p k b kids) = true := by
   simp only [mkPar]; exact (pnp_node _ _ _).2 ⟨fun _ => h1, h2⟩
 
 theorem pnp_append_par {cur x : Tree} (hc : parNoPar cur = true) (hx : parNoPar x = true)
-    (hxl : x.it.level ≠ parLevel) : parNoPar (cur.append x) = true := by
+    (hxl : parLevel < x.it.level) : parNoPar (cur.append x) = true := by
   cases cur with
   | node it p kids =>
     obtain ⟨h1, h2⟩ := (pnp_node it p kids).1 hc
@@ -122,7 +122,7 @@ theorem parLoop_pnp (proto : Item) (o : Ref) : ∀ (kids done : List Tree) (cur 
     split
     · exact parLoop_pnp proto o r _ x hdc hx hr
     · rename_i hne
-      have hxl : x.it.level ≠ parLevel := by simpa using hne
+      have hne' : x.it.level ≠ parLevel := by simpa using hne
       split
       · refine ⟨(parNoParL_iff _).2 ?_, hr⟩
         intro y hy
@@ -131,7 +131,9 @@ theorem parLoop_pnp (proto : Item) (o : Ref) : ∀ (kids done : List Tree) (cur 
         · exact (parNoParL_iff _).1 hd y hy
         · exact hc
         · exact hx
-      · split
+      · rename_i hnlt
+        have hxl : parLevel < x.it.level := by omega
+        split
         · refine parLoop_pnp proto o r _ _ ?_ (mkPar_pnp _ _ _ _ _ _ (by simp) (by simp [parNoParL])) hr
           rw [parNoParL_iff]
           intro y hy
